@@ -39,12 +39,18 @@ def main():
             rc, out = sh('cargo test --offline -p chiritori --test demo 2>&1 | tail -5', cwd=WT)
             r['demo_fails_with_change'] = 'test result: FAILED' in out or 'error' in out
             # run the checks against the changed tree
-            env = dict(os.environ, CHIRITORI_REPO=WT, CHIRITORI_SRC=f'{WT}/chiritori/src')
+            env = dict(os.environ, CHIRITORI_REPO=WT, CHIRITORI_SRC=f'{WT}/chiritori/src', VERIF_OUT_DIR='/tmp/seedout')
             os.remove(f'{WT}/chiritori/tests/demo.rs')
-            det = {}
-            for p in allprops:
-                rc, out = sh(f'python3 /verif/bin/check {p} --tier quick', cwd='/verif', env=env)
-                det[p] = {'rc': rc, 'lines': [l for l in out.splitlines() if l.startswith('VIOLATION') or l.startswith('UNDECIDED')][:6]}
+            det = {p: {'rc': None, 'lines': []} for p in allprops}
+            rc, out = sh('python3 /verif/bin/check --all --tier quick', cwd='/verif', env=env, timeout=3600)
+            import re
+            for l in out.splitlines():
+                m = re.match(r'(VIOLATION|OK|UNDECIDED) property=(C\d+)', l)
+                if m and m.group(2) in det:
+                    k = {'VIOLATION': 1, 'OK': 0, 'UNDECIDED': 2}[m.group(1)]
+                    dd = det[m.group(2)]
+                    dd['rc'] = k if dd['rc'] is None else (1 if 1 in (k, dd['rc']) else max(k, dd['rc']))
+                    if k: dd['lines'].append(l[:300])
             r['checks'] = det
             r['detected_by'] = [p for p, v in det.items() if v['rc'] == 1]
             r['undecided'] = [p for p, v in det.items() if v['rc'] == 2]
